@@ -18,6 +18,7 @@ type pendingObl struct {
 	dropLemmasFrom                int    // >0: leave out the assumptions of lemmas number >= this (a lemma is proved from the earlier ones only)
 	dropUsesFrom                  int    // >0: leave out the conclusions of lemma applications number >= this
 	dropAbortsFrom                int    // >0: leave out the "did not abort here" assumptions of safety sites number >= this
+	upto                          int    // >0: only the first `upto` script lines (a lemma is proved from what precedes it: fewer assumptions, smaller query)
 }
 
 func scriptWithout(base, marker string, lemmasFrom, usesFrom, abortsFrom int) string {
@@ -291,7 +292,7 @@ func VerifyFunc(w *World, fn *ssa.Function, c *Contract, mode string) (res *FnRe
 				continue
 			}
 			g := fc.evalGoal(env, l.E)
-			fc.pending = append(fc.pending, pendingObl{name: "#lemma." + clauseName(l, i), kind: "body", goal: not(g), src: l.Src, expect: "unsat", dropLemmasFrom: i + 1, dropUsesFrom: 1})
+			fc.pending = append(fc.pending, pendingObl{name: "#lemma." + clauseName(l, i), kind: "body", goal: not(g), src: l.Src, expect: "unsat", dropLemmasFrom: i + 1, dropUsesFrom: 1, upto: len(fc.B.lines)})
 			a := fc.evalBool(env, l.E)
 			fc.B.Raw(fmt.Sprintf("(assert %s) ;;lemma:%d;", a, i+1))
 		}
@@ -330,7 +331,11 @@ func VerifyFunc(w *World, fn *ssa.Function, c *Contract, mode string) (res *FnRe
 	base := fc.B.Script()
 	for _, p := range fc.pending {
 		o := &Obl{Name: qn + p.name, Kind: p.kind, Expect: p.expect, Src: p.src, Fn: qn, ModelVars: fc.modelVars}
-		o.Script = scriptWithout(base, p.drop, p.dropLemmasFrom, p.dropUsesFrom, p.dropAbortsFrom) + "(assert " + simplifyLine(p.goal) + ")\n(check-sat)\n"
+		b0 := base
+		if p.upto > 0 && p.upto < len(fc.B.lines) {
+			b0 = strings.Join(simplifyScript(fc.B.lines[:p.upto]), "\n") + "\n"
+		}
+		o.Script = scriptWithout(b0, p.drop, p.dropLemmasFrom, p.dropUsesFrom, p.dropAbortsFrom) + "(assert " + simplifyLine(p.goal) + ")\n(check-sat)\n"
 		res.Obls = append(res.Obls, o)
 		if rs, ok := restrictGlobal[o.Name]; ok && c != nil {
 			if re, err := ParseExpr(rs); err == nil {
